@@ -259,7 +259,9 @@ def run_shard(ctx, shard):
     elif op == "exp":
         S = E[:: max(1, len(E) // (6 if ctx.tier == "quick" else 14))]
         exps = {64: [0, 1, 2, 3, 2**64 - 1, 2**63, ref.X_ABS], 256: [0, 1, ref.r, 2**256 - 1, 2**255, alpha.filler(ctx.seed, "c4e", 0, 256)],
-                384: [0, 1, ref.q, ref.q - 1, 2**384 - 1, (ref.q - 3) // 4]}
+                384: [0, 1, ref.q, ref.q - 1, 2**384 - 1, (ref.q - 3) // 4],
+                # the exponent type is a template parameter: a width beyond every width the library itself uses, with values >= 2^384
+                768: [ref.q**2, (ref.q**2 - 1) // 2, 2**768 - 1, 2**384, 1]}
         for a in S[part::parts]:
             for w, es in exps.items():
                 for e in (es if ctx.tier == "thorough" else es[:5]):
